@@ -250,7 +250,7 @@ def run(ctx):
         for i in range(rng.randrange(3, 40)):
             name, ad, a, data = gen.random_call(rng, rng.choice(ADDRS), hot=0.6, long_bias=0.2)
             sc.add(call(name, *S.tokens(name, ad, a)))
-            if rng.random() < 0.3:
+            if rng.random() < (0.3 if k % 2 else 0.03):      # odd: frequent flushes; even: long bursts, packets are closed because the next message does not fit
                 sc.add('flush', 'quiesce')
         sc.add('flush', 'quiesce', 'flush', 'quiesce', 'mark done', 'stop')
         p1.append(sc.text())
@@ -260,8 +260,19 @@ def run(ctx):
         if ctx.generic_failures(r, {'kind': 'roundtrip-phase1'}) or runner.outcome(r) != 'ok':
             continue
         stream = b''.join(bytes.fromhex(e['hex']) for e in r.events if e.get('e') == 'tx')
+        # the round-trip clause is about the messages that were SENT: the sender's output must decode strictly (every packet with a good CRC,
+        # whole messages) - a packet the library's own receiver would have to discard is a lost message sequence, not a shorter expectation
+        try:
+            strict = [x for p_ in model.strict_deframe(stream) for x in model.split_messages(p_['payload'])]
+        except model.FrameError as e:
+            ctx.violation('sender-output-not-decodable', 'roundtrip', f'the receiver cannot decode what the sender emitted: {e}', r.scenario, 'asan', {'kind': 'roundtrip-phase1'})
+            continue
+        nsub = sum(1 for e in r.events if e.get('e') == 'ret' and str(e.get('f', '')).startswith('bidib_send_'))
+        ctx.count('roundtrip_calls_submitted', nsub)
         # downlink messages are requests (type < 0x80): none is MSG_STALL
         exp = reference_messages(stream)
+        if exp is not None and len(exp) != len(strict):
+            exp = None
         if exp is None:
             ctx.violation('sender-output-malformed', 'roundtrip', 'reference decoder cannot split the library\'s own output', r.scenario, 'asan')
             continue
